@@ -5,6 +5,7 @@ package jobcontroller
 var verifHarnesses = map[string]func(){
 	"VerifH_C10_status":    VerifH_C10_status,
 	"VerifH_C08_create":    VerifH_C08_create,
+	"VerifH_C20_jobcontroller": VerifH_C20_jobcontroller,
 	"VerifH_C09_L1_adoption": VerifH_C09_L1_adoption,
 	"VerifH_C09_L2_crash":    VerifH_C09_L2_crash,
 	"VerifH_C08_blocked":   VerifH_C08_blocked,
